@@ -660,6 +660,7 @@ func (g *mgen) classType(c string, depth int) (T, bool) {
 // Only CUE can express a default on a reference.
 func AddStructDefaults(t *rapid.T, m *Model) int {
 	added := 0
+	keepConstants := rapid.IntRange(0, 5).Draw(t, "overrideconstants") == 0
 	reaches := func(from, to string) bool {
 		seen := map[string]bool{}
 		var rec func(name string) bool
@@ -708,6 +709,21 @@ func AddStructDefaults(t *rapid.T, m *Model) int {
 				continue
 			}
 			doc := DrawDoc(t, m, f.Type.Ref)
+			// overrides that say nothing are left out: explicit nulls, and the
+			// referred struct's own constants unless keepConstants (naming a
+			// constant in a struct default is a listed finding of C10: the
+			// Python constructor then passes it as a keyword argument)
+			var obj map[string]any
+			if err := json.Unmarshal([]byte(doc.JSON), &obj); err == nil {
+				for _, tf := range target.Type.Fields {
+					if v, has := obj[tf.Name]; has && (v == nil || (tf.Type.Const != nil && !keepConstants)) {
+						delete(obj, tf.Name)
+					}
+				}
+				if b, err := json.Marshal(obj); err == nil {
+					doc.JSON = string(b)
+				}
+			}
 			raw := json.RawMessage(doc.JSON)
 			f.Type.Default = &raw
 			added++
